@@ -10,12 +10,19 @@ def demo():
     p = subprocess.run(["/venv/bin/python", "_mutant/demo.py"], cwd=wt, capture_output=True, text=True, timeout=600)
     return p.returncode
 out = {"id": mid, "worktree": wt}
+# (git stash is shared by all worktrees of a repository: never use it here)
+patch = os.path.join(wt, "_mutant", "patch.diff")
+cur = subprocess.run(["git", "diff", "--", "processscheduler"], cwd=wt, capture_output=True, text=True).stdout
+if cur.strip() != open(patch).read().strip():
+    subprocess.run(["git", "checkout", "--", "processscheduler"], cwd=wt, check=True)
+    subprocess.run(["git", "apply", patch], cwd=wt, check=True)
+    out["worktree_restored_from_patch"] = True
 out["demo_with_change"] = demo()
-subprocess.run(["git", "stash", "-q"], cwd=wt, check=True)
+subprocess.run(["git", "apply", "-R", patch], cwd=wt, check=True)
 try:
     out["demo_without_change"] = demo()
 finally:
-    subprocess.run(["git", "stash", "pop", "-q"], cwd=wt, check=True)
+    subprocess.run(["git", "apply", patch], cwd=wt, check=True)
 out["checks"] = {}
 env = dict(os.environ, VERIF_REPO=wt)
 for pid in checks:
